@@ -243,6 +243,19 @@ def main():
         conds = " ".join(f'if (y {outer} z) {cmp} (z {outer} w) {{ x = 1; }}' for cmp in ("==", "<", ">=", "!="))
         progs.append({"name": f"op-nesting-{k}", "src": "out int x;\nout int y;\nout int z;\nout int w;\nparser { \"a\"; " + stmts + " " + conds + ' "z"; }\n',
                       "args": [], "feats": {}, "origin": "op-nesting"})
+    # names that meet in the generated header: enumerators are <PROGRAM>_<OUTPUT>_<VALUE>, result codes <PROGRAM>_FINISH_<code> /
+    # <PROGRAM>_YIELD_<code>, outputs are struct members under their own names (accepted programs have to compile, as C and as C++)
+    for k, (src, args) in enumerate([
+            ('out enum{b_c,q} a;\nout enum{c,r} a_b;\nparser { "a"; a = q; a_b = r; "b"; }\n', []),
+            ('out enum{x,y} FINISH;\nfinishcode X;\nparser { "a"; FINISH = y; "b"; finish X; }\n', []),
+            ('out enum{x,y} yield;\nyieldcode X;\nparser { "a"; yield = y; "b"; yield X; "c"; }\n', ["-fyield-support"]),
+            ('out enum{x,y} Yield;\nyieldcode x;\nparser { "a"; Yield = y; "b"; yield x; "c"; }\n', ["-fyield-support"]),
+            ('out enum{b,c} a;\nout enum{b,c} a_;\nparser { "a"; a = b; a_ = c; "b"; }\n', []),
+            ('out int class;\nparser { "a"; class = 3; "b"; }\n', []),
+            ('out int int = 0;\nparser { /\\d/; int = 3; "x"; }\n', []),
+            ('out bool new;\nout str[4] while;\nparser { "a"; new = true; while += "b"; }\n', []),
+            ('out int klass;\nout enum{a,b} e;\nfinishcode E_A;\nparser { "a"; klass = 3; e = b; "b"; finish E_A; }\n', [])]):
+        progs.append({"name": f"header-names-{k}", "src": src, "args": args, "feats": {}, "origin": "header-names"})
     # start-up actions (nothing has been read yet): what is accepted there has to compile as part of start()
     for k, body in enumerate(['if $last == 65 { x = 1; } "a";', 'x = [$last]; "a";', 'if x == 0 { u = 2; } else { u = 3; } "a";',
                               'optional { "q"; } if $last == 1 { x = 1; } "a";', 's += [$last]; "a";', 's = "ab"; if s[0] == 97 { x = 1; } "a";',
